@@ -1,4 +1,4 @@
-"""C07 -- import tidying never changes what a name means (R07.1-R07.17)."""
+"""C07 -- import tidying never changes what a name means (R07.1-R07.18)."""
 from __future__ import annotations
 
 import ast
@@ -24,6 +24,7 @@ EXPLANATION = (
     ' R07.15: the self-import rewrite is refused as soon as ANY character between the name and the next dot is foreign.'
 )
 EXPLANATION += " R07.17: an import statement is managed as whole lines only if every path to its registration consulted a comparison with the neighbouring statements' lines."
+EXPLANATION += " R07.18: the reader of `__all__` takes names from a list display and from a tuple display alike."
 ASSUMPTIONS = ["scope-opening constructors without a handler in the finder (async def, lambda, comprehensions) only make more names count as used: conservative, not armed"]
 
 FINDER = "rope.refactor.importutils.module_imports._UnboundNameFinder"
@@ -50,6 +51,7 @@ def check(ctx, res) -> None:
     _qualifier_gap_rule(ctx, res)
     _use_regardless_of_ctx_rule(ctx, res)
     _whole_line_ownership_rule(ctx, res)
+    _all_literal_forms_rule(ctx, res)
 
 
 def _use_regardless_of_ctx_rule(ctx, res) -> None:
@@ -637,3 +639,35 @@ def _whole_line_ownership_rule(ctx, res) -> None:
                 "neighbouring statements': for `import os, sys; sys.stdout.write(...)` the call belongs to the recorded text and is deleted, duplicated or moved "
                 "with the import when imports are organised", function=f.qualname)
     res.floor("R07.17", "registrations of module-level import statements", n, 1)
+
+
+def _all_literal_forms_rule(ctx, res) -> None:
+    """R07.18: a name listed in `__all__` is used (it is what `from m import *` exports), so the import that binds it must stay.
+    `__all__` is written as a list or as a tuple; the reader of `__all__` that walks the elements of the literal
+    (`<node>.elts`) accepts both kinds of node on the way there."""
+    from ..cfg import CFG
+    idx = ctx.idx
+    f = idx.need_func("rope.refactor.importutils.module_imports.ModuleImports._get_all_star_list")
+    cfg = CFG(f.node)
+    n = 0
+    for nd in cfg.nodes:
+        if nd.kind != "stmt" or nd.ast is None:
+            continue
+        el = [x for x in ast.walk(nd.ast) if isinstance(x, ast.Attribute) and x.attr == "elts" and isinstance(x.value, ast.Name)]
+        if not el:
+            continue
+        who = el[0].value.id
+        kinds = None
+        for t, pol in cfg.guards(nd.id):
+            if pol and isinstance(t, ast.Call) and call_name(t) == "isinstance" and len(t.args) == 2 and isinstance(t.args[0], ast.Name) and t.args[0].id == who:
+                cl = t.args[1].elts if isinstance(t.args[1], ast.Tuple) else [t.args[1]]
+                kinds = {(dotted(c) or "").split(".")[-1] for c in cl}
+        if kinds is None:
+            continue
+        n += 1
+        missing = sorted({"List", "Tuple"} - kinds)
+        res.add("R07.18", f"_get_all_star_list|literal-forms-of-__all__#{n}", not missing, f"{f.unit.rel}:{nd.lineno}",
+                "the elements of `__all__` are read from a list or a tuple literal" if not missing else
+                f"the elements of `__all__` are read only when the literal is one of {sorted(kinds)}, not {missing}: with `__all__ = (\"sqrt\",)` the import that binds `sqrt` "
+                "counts as unused and organize imports removes it -- `from m import *` elsewhere loses the name", function=f.qualname)
+    res.floor("R07.18", "readers of the literal's elements", n, 1)
